@@ -448,6 +448,9 @@ func (ck *Check) Main(args []string) {
 		"real_vs_stub":                   ck.RealStub,
 		"known_findings_hit":             keys,
 	}
+	if total.Counters["distinct_set_saturated"] > 0 {
+		cov["distinct_nontrivial_note"] = "lower bound: the per-worker sets of case hashes are capped at 1.5 million entries; further cases were counted in counters.distinct_set_saturated but not de-duplicated"
+	}
 	if ck.SimTimeUnit != "" {
 		var sum int64
 		for _, k := range ck.SimTimeCounters {
